@@ -13,10 +13,6 @@ open Cctz Cctz.Tz Cctz.Spec
 
 /-! ## BreakTime -/
 
-theorem getTrans_eq (z : Zone) (i : Nat) (h : i < z.transitions.size) :
-    getTrans z i = pure (trn z i) := by
-  simp [getTrans, trn, Array.getD, h]
-
 /-- the hint-free answer of `breakTimeCore` -/
 def breakAns (z : Zone) (t : Int) : Ck AbsLookup :=
   if t < (trn z 0).unixTime then getType z z.defaultType >>= localTimeTT z.abbreviations t
